@@ -18,6 +18,7 @@ def stmt(act):
     til = "~" if act.get("mu") else ""
     if a == "Define": return f"{til}{n} := {lit(act['v'])}"
     if a == "DefineFromVar": return f"{til}{n} := {m}"
+    if a == "DefineFromVarAnnot": return f"{til}{n}<{ {1: 'f64', 2: '[f64]:1,2', 3: '[f64]'}[act['i']] }> := {m}"
     if a == "Assign": return f"{n} = {lit(act['v'])}"
     if a == "AssignFromVar": return f"{n} = {m}"
     if a == "AssignFromPart": return {1: f"{n} = {m}.x", 2: f"{n} = {m}.1", 3: f"{n} = [{m}]", 4: f"{n} = {m}[1]"}[act["i"]]
